@@ -8,7 +8,7 @@ LEVEL_TEXT = ("The real secretbox/box/sign glue is executed symbolically by CBMC
 LEVEL_TEXT += " AES-256-GCM (E2 irsym): the AES-NI/PCLMULQDQ unit's LLVM IR is executed on a concrete key and nonce (two fixed pairs) with message, associated data and forged-tag delta symbolic, and compared bit for bit with an SP 800-38D / FIPS-197 specification over the same symbols; both sides are GF(2)-affine in the symbols and are kept in canonical XOR normal form, tag acceptance under 'delta != 0' is decided by kissat. AEGIS-128L/256 AES-NI and portable units likewise with key and nonce symbolic as well."
 TRUSTED = ["CBMC 6.11 pointer model (pointer comparison/uintptr_t casts within one object)", "idealised cores (stubs/ideal.c)"]
 ASSUMPTIONS = ["offsets in [-80, 80], mlen in the enumerated set"]
-OUTSIDE = ["|offset| > 80", "AES-256-GCM partial overlap (exact aliasing c == m is covered by E2)", "SIMD stream back ends in place", "partial overlap for APIs that only document exact aliasing"]
+OUTSIDE = ["|offset| > 80", "AES-256-GCM partial overlap (exact aliasing c == m is covered by E2)", "SIMD stream back ends in place", "partial overlap for APIs that only document exact aliasing", "|DELTA| > 100 for crypto_sign/open"]
 
 QD = [-80, -33, -17, -16, -15, -1, 0, 1, 5, 15, 16, 17, 31, 32, 33, 48, 80]
 QM = [0, 1, 32, 33, 40]
@@ -34,4 +34,24 @@ def obligations(tier):
                                   timeout=300, tier="quick" if q else "thorough", family="secretbox-overlap-" + SBNAME[v],
                                   desc="secretbox easy/open_easy/detached/open_detached with output at input+DELTA == disjoint run; inner stream calls alias-safe",
                                   bounds="all key/nonce/message bytes; DELTA enumerated (quick 17 values, thorough every -49..49 and every 4th up to +-80), mlen enumerated"))
+    # crypto_sign / crypto_sign_open memmove paths over the abstract group / SHA-512 of C06
+    SU = ["crypto_sign/ed25519/ref10/keypair.c", "crypto_sign/ed25519/ref10/sign.c", "crypto_sign/ed25519/ref10/open.c",
+          "crypto_sign/ed25519/sign_ed25519.c", "crypto_sign/crypto_sign.c", "sodium/utils.c", "crypto_verify/verify.c"]
+    SS = ["ideal_hash.c", "ideal_ed25519.c", "rng.c", "misuse.c", "libc.c", "x86_builtins.c"]
+    for ml in ((1, 17) if tier != "thorough" else (0, 1, 17, 40)):
+        ds = sorted(set([-(ml + 64), -(ml + 1), -ml, -17, -1, 0, 1, 16, 63, 64, 65, 64 + ml - 1, 64 + ml, 64 + ml + 1, 100]))
+        if tier == "thorough":
+            ds = sorted(set(ds) | set(range(-100, 101, 3)))
+        for form in (0, 1):
+            for d in ds:
+                q = ml == 17 or d in (0, 64)
+                if tier != "thorough" and not q:
+                    continue
+                obs.append(Ob("sign-overlap-f%d-m%d-d%d" % (form, ml, d), "C13/sign_overlap.c", units=SU, stubs=SS,
+                              defs={"FORM": form, "MLEN": ml, "DELTA": d}, unwind=240, timeout=900, family="sign-overlap",
+                              tier="quick" if q else "thorough",
+                              desc="crypto_sign_ed25519 / crypto_sign_ed25519_open with message at sm + DELTA == disjoint run (output bytes, verdict, length)",
+                              bounds="all seed/message/signed-message/key bytes; DELTA and mlen enumerated"))
+        obs.append(Ob("sign-overlap-f2-m%d" % ml, "C13/sign_overlap.c", units=SU, stubs=SS, defs={"FORM": 2, "MLEN": ml, "DELTA": 64}, unwind=240, timeout=900,
+                      family="sign-overlap", desc="crypto_sign dispatcher with m == sm + 64", bounds="all seed/message bytes; mlen enumerated"))
     return obs
